@@ -128,7 +128,7 @@ impl Property for C16 {
         }
     }
     fn exhaustive_part(&self, _q: bool) -> Option<String> {
-        Some("parse(): all slice lengths 0..=64 x 4 fill patterns; 32-byte values: all-zero, all-ff, each single set bit, ascending".into())
+        Some("parse(): all slice lengths 0..=64 x 4 fill patterns; 32-byte values: all-zero, all-ff, each single set bit, ascending; deserialiser: every single-character substitution of a valid 64-digit string by every printable non-hex ASCII character at every position".into())
     }
     fn enumerate(&self, _quick: bool) -> Box<dyn Iterator<Item = Case> + Send + '_> {
         let mut v = Vec::new();
@@ -177,6 +177,20 @@ impl Property for C16 {
         ] {
             v.push(Case::NodeId(NodeIdCase::Hex(s)));
         }
+        // every single-character substitution of a valid string by every printable non-hex ASCII
+        // character (and a few others), at every position, with and without prefix
+        let others: Vec<char> = (0x20u8..0x7f).map(|b| b as char).filter(|c| !c.is_ascii_hexdigit()).chain(['\t', '\n', '\0', 'é', '０']).collect();
+        for pos in 0..64 {
+            for ch in &others {
+                let mut b: Vec<char> = body.chars().collect();
+                b[pos] = *ch;
+                let t: String = b.into_iter().collect();
+                v.push(Case::NodeId(NodeIdCase::Hex(t.clone())));
+                if pos % 4 == 0 {
+                    v.push(Case::NodeId(NodeIdCase::Hex(format!("0x{t}"))));
+                }
+            }
+        }
         for j in [
             "null", "0", "[]", "{}", "true", "\"\"", "[\"0x00\"]", "1e400", "\"\\u0000\"", "", "\"",
             "{\"raw\":\"0x00\"}",
@@ -217,7 +231,7 @@ impl Property for C16 {
                 let edits = c.below(3);
                 for _ in 0..edits {
                     let pos = c.below(body.len() + 1);
-                    const INS: &[char] = &['0', 'f', 'A', 'g', 'x', ' ', 'é', '\0', '-', 'G'];
+                    const INS: &[char] = &['0', 'f', 'A', 'g', 'x', ' ', 'é', '\0', '-', 'G', '+', '_', '.', '#', 'X', '０'];
                     match c.below(3) {
                         0 => {
                             if pos < body.len() {
